@@ -32,6 +32,14 @@ CHECKS = {
    text="For TLC-enumerated request skeletons (incl. duplicates and attributes hidden after integrity) and builder-generated requests, check_attribute_types is called with empty, full and random supported/required subsets of the types present and absent; the verdict (none/400/420), the UNKNOWN-ATTRIBUTES list in message order, class/method/transaction id/ERROR-CODE of the generated response and its re-parse are compared with Police(). comprehension_required is compared with 'type < 0x8000' on all 65536 types (exhaustive)."),
  "C17": dict(cat="model_checking", ref="3.5, 5/C17", tech="ParsePrefix of the TLA+ specification evaluated by TLC for EVERY cut point of every well-formed case, compared with Message::from_bytes and MessageHeader::from_bytes", note=CODEC_NOTE + " Exhaustive in cut points per message.",
    text="For every well-formed enumerated skeleton and every builder-generated message up to 260 (900) bytes, every strict prefix is parsed by the implementation and by the specification: Truncated{20, n} below 20 bytes and Truncated{len(m), n} from 20 bytes on (both MUST, exact numbers); the stand-alone header decoder accepts exactly from 20 bytes and reports the same type, id and declared length."),
+ "C04": dict(cat="fault_enumeration", ref="3.5, 3.7, 5/C04", tech="IntegrityPlan/KeyPlan of the TLA+ specification (which attribute, which bytes, which key) evaluated by TLC + independent HMAC/MD5 oracle (python hmac/hashlib) + complete single-bit-flip enumeration; messages sealed by the library and independently by the adapter", note=CODEC_NOTE + " HMAC collisions assumed not to occur.",
+   text="Messages sealed by the builder and, independently of the library, by the adapter's own RFC 8489 sealing (SHA-1, SHA-256 incl. truncations 16..32 and illegal lengths, both, with/without FINGERPRINT; short/long-term credentials over random UTF-8 incl. empty strings and ':') are validated under the sealing credentials and under alternatives (other password, short-vs-long, long-term differing in user or realm). TLC's IntegrityPlan names the checked attribute, the exact authenticated bytes (length field rewritten to the end of the attribute) and the claimed MAC; KeyPlan names the key input; python computes HMAC/MD5 on exactly those bytes; verdict and reported algorithm must match. For a sample every single-bit flip and random byte substitutions of the whole buffer are enumerated and judged the same way (rejected by the parser, or validation fails, exactly when spec+oracle say so)."),
+ "C08": dict(cat="model_checking", ref="3.4, 5/C08", tech="per-type Verdict/Fields/Encode in TLA+ (StunAttrs), round-trip theorems checked by TLC on complete small domains (MCAttrs); implementation decoders/encoders judged case by case by TLC", note=CODEC_NOTE + " USERNAME 509..513, ALTERNATE-DOMAIN > 255, empty PASSWORD-ALGORITHMS and set reserved bits are as-is.",
+   text="TLC checks decode(encode)=id, validity of encodings and re-encoding stability for all 19 types over every length 0..40 x 3 contents, all 65536 ERROR-CODE (class,number) byte pairs and every address family byte. The implementation's 19 decoders are run on every value length 0..800 (quick: around every guard), all strings <= 2 over a 20-byte UTF-8 boundary alphabet (+ sampled 3-4), class/number bytes, family bytes, algorithm ids/parameter lengths/trailing bytes, random blobs; accept/refuse, every exposed field, the re-encoding through the public constructor and wrong-implementation refusal by the other 18 decoders are compared with the specification."),
+ "C09": dict(cat="fault_enumeration", ref="3.4, 3.5, 5/C09", tech="CRC-32 written in TLA+; builder fingerprints and every mutant judged by the TLA+ decoder (re-checks the CRC whenever a FINGERPRINT is still in place); complete single-bit-flip enumeration + sampled bursts/substitutions", note=CODEC_NOTE + " Burst detection rests on CRC-32's mathematics.",
+   text="Every generated message with a FINGERPRINT (appended by the builder or computed independently by the adapter) must be accepted, which in the specification means FINGERPRINT = CRC-32(ISO-HDLC, written in TLA+ and checked against the standard check value) of the preceding bytes with the length field covering the attribute, XOR 0x5354554e. For 14 (150) of them all single-bit flips, sampled bursts of every length 2..32 and random byte substitutions are judged by the TLA+ decoder; the implementation must agree on accept/reject for each mutant (mutants whose FINGERPRINT was dissolved into other well-formed attributes are accepted by both)."),
+ "C13": dict(cat="model_checking", ref="3.4, 5/C13", tech="XorAddr in TLA+ with involution/injectivity checked exhaustively over bytes and ports; wire values and constructor round trips of the implementation judged by TLC", note=CODEC_NOTE,
+   text="TLC checks byte-wise XOR involution and key-injectivity over all byte pairs, the port XOR over all 65536 ports and the RFC 8489 14.2 layout (port with 0x2112, IPv4 with the cookie, IPv6 with cookie||id; another id gives another IPv6 address). Wire values with boundary and random addresses/ports/ids are decoded by the implementation and by the specification; XorMappedAddress::new(a,t) -> to_raw -> from_raw -> addr(t)=a, the wire bytes, write_into, and decoding under another id are recorded for thousands of (a,t) and judged by TLC."),
  "C14": dict(cat="model_checking", ref="3.3, 5/C14", tech="TLA+ model checking (TLC) of TcpFraming/MCTcpFraming + replay of every LTS edge into the real TcpBuffer + TLC trace validation of recorded runs with real frame sizes",
    note="Trusted: TLC, the Rust adapter, the python label matcher. Exhaustive for streams of <= 8 (thorough 11) bytes with frame lengths 0..2; lengths up to 65535 are sampled by trace validation.",
    text="TLC checks on all frame sequences x all chunkings x all push/pull interleavings that the pulled frames are a prefix of the sent frames (none lost, duplicated, merged, reordered, altered), that no byte is lost or invented, that pull answers nothing exactly when no complete frame is buffered and then leaves the buffer intact, and that everything is delivered once pushed. Every edge of the dumped LTS is executed on the real TcpBuffer; random frame sequences with lengths from {0,1,2,253..258,65534,65535,...} and random chunking (1-byte chunks, multi-frame chunks) are recorded and validated by TLC with the same invariants."),
